@@ -39,6 +39,21 @@ def do_compile(text, opts):
         return {'r': 'escaped', 'type': type(e).__name__, 'msg': str(e)[:500]}
 
 
+def do_compile_file(path, opts):
+    sys.stdout = io.StringIO()
+    sys.stderr = io.StringIO()
+    try:
+        with open(path) as f:
+            css = lesscpy.compile(f, **opts)
+        return {'r': 'ok', 'css': css}
+    except SyntaxError as e:
+        return {'r': 'error', 'cls': type(e).__name__, 'msg': str(e)[:2000]}
+    except RecursionError as e:
+        return {'r': 'escaped', 'type': 'RecursionError', 'msg': str(e)[:200]}
+    except BaseException as e:          # noqa
+        return {'r': 'escaped', 'type': type(e).__name__, 'msg': str(e)[:500]}
+
+
 def do_tokens(text, filtered):
     try:
         lx = _lexer.LessLexer()
@@ -146,6 +161,8 @@ def main():
                 ans = do_compile(req['text'], req.get('opts', {}))
             elif k == 'compile_many':
                 ans = {'r': 'many', 'results': [do_compile(t, req.get('opts', {})) for t in req['texts']]}
+            elif k == 'compile_file':
+                ans = do_compile_file(req['path'], req.get('opts', {}))
             elif k == 'tokens':
                 ans = do_tokens(req['text'], req.get('filtered', True))
             elif k == 'parsedump':
